@@ -8,6 +8,7 @@
 -/
 import DnsModel.Lemmas.ParseSpec
 import DnsModel.Tie.Name
+import DnsModel.Tie.Parse
 namespace Dns.C02
 open Dns
 
@@ -72,5 +73,21 @@ theorem source_name_ok_iff_valid (p : Bytes) (off e : Nat) :
 theorem source_plain_name_ok_iff (p : Bytes) (off e : Nat) :
     Tr.Name.check_uncompressed_name p off = .ok e ↔ PlainName p off e := by
   rw [Tie.check_uncompressed_name_eq]; exact plain_name_ok_iff p off e
+
+/-- **The validator of the current source text accepts exactly the well-formed packets.**  `Tr.Sector.parse` is
+the translation of `DNSSector::parse` and everything it calls, written by rs2lean.py from /repo/src/dns_sector.rs
+and /repo/src/compress.rs on this run, started on the state `DNSSector::new` builds. -/
+theorem source_parse_ok_iff_wf (p : Bytes) :
+    (∃ r, Tr.Sector.parse p 0 none none 0 none none none 512 = .ok r) ↔ WF p := by
+  rw [Tie.parse_eq, ← parse_ok_iff_wf]
+  constructor
+  · rintro ⟨r, h⟩
+    cases hp : parse p with
+    | ok v => exact ⟨v, rfl⟩
+    | err e => simp [hp] at h
+    | panic => simp [hp] at h
+    | diverge => simp [hp] at h
+  · rintro ⟨v, hv⟩
+    exact ⟨Tie.viewTup p v, by simp [hv]⟩
 
 end Dns.C02
